@@ -1,6 +1,8 @@
 package main
 
 import (
+	"fmt"
+	"go/types"
 	"golang.org/x/tools/go/ssa"
 	"strings"
 )
@@ -46,6 +48,47 @@ func checkC07(r *Run) {
 	}
 	for _, f := range []string{"addressTxns.reset", "addressUx.reset", "transactions.reset", "uxOuts.reset", "historyMeta.reset"} {
 		r.checkCallers("C07-R1", "visor/historydb."+f, "visor/historydb.HistoryDB.Erase")
+	}
+	// Erase empties every bucket of the history, the parsed-height marker included: a rebuild restarts from block 0
+	if fn := r.fn("C07-R6", "visor/historydb.HistoryDB.Erase"); fn != nil {
+		var fields []string
+		if st := derefStruct(fn.Signature.Recv().Type()); st != nil {
+			for i := 0; i < st.NumFields(); i++ {
+				ms := types.NewMethodSet(st.Field(i).Type())
+				for j := 0; j < ms.Len(); j++ {
+					if ms.At(j).Obj().Name() == "reset" {
+						fields = append(fields, st.Field(i).Name())
+					}
+				}
+			}
+		}
+		r.Check("C07-R6", "HistoryDB buckets with a reset method", r.P.Pos(fn.Pos()), len(fields) >= 5, fmt.Sprint(fields))
+		ff := r.P.Facts(fn)
+		_, facts := ff.SuccessFacts()
+		for _, f := range fields {
+			okAll := len(facts) > 0
+			for _, fs := range facts {
+				if _, m := matchAny([]string{"ok(*.reset($0." + f + ", $1))"}, fs); !m {
+					okAll = false
+				}
+			}
+			if !okAll {
+				// the loop form: the bucket is put into a list of resettable things that is reset element by element
+				boxed, invoked := false, false
+				for _, b := range fn.Blocks {
+					for _, in := range b.Instrs {
+						if mi, ok := in.(*ssa.MakeInterface); ok && ff.Term(mi.X) == "$0."+f {
+							boxed = true
+						}
+						if ci, ok := in.(ssa.CallInstruction); ok && ci.Common().IsInvoke() && ci.Common().Method.Name() == "reset" {
+							invoked = true
+						}
+					}
+				}
+				okAll = boxed && invoked
+			}
+			r.Check("C07-R6", "HistoryDB.Erase resets bucket "+f+" on every successful return", r.P.Pos(fn.Pos()), okAll, "a bucket that survives Erase makes the rebuilt history differ from a history parsed from scratch")
+		}
 	}
 	r.checkCallers("C07-R1", "visor/historydb.HistoryDB.SetParsedBlockSeq", "visor/historydb.HistoryDB.ParseBlock")
 	r.checkCallers("C07-R1", "visor/historydb.HistoryDB.ParseBlock", "visor.Visor.executeSignedBlockUnsafe", "visor.parseHistoryTo", "visor.rebuildHistoryDB")
@@ -357,4 +400,3 @@ func c07Predicted(r *Run) {
 		r.Check("C07-R5", tf+": record sites", "", n == 1, "")
 	}
 }
-
